@@ -291,12 +291,29 @@ pub fn write_step(rng: &mut Rng, ki: Option<usize>, vi: usize, len: u64, cfg: &W
                 }
                 if rng.chance(1, 2) {
                     // anywhere from long before to long after the simulated clock (1.5e12 .. 1.8e12)
-                    o["time"] = json!((1_000_000_000_000u64 + rng.below(1 << 40)).to_string());
+                    o["time"] = if rng.chance(1, 8) { json!(time_text(rng)) } else { json!((1_000_000_000_000u64 + rng.below(1 << 40)).to_string()) };
                 }
                 if rng.chance(1, 4) {
                     // a correctly declared integrity, single or multi-hash (the extra hash is of a weaker algorithm)
                     o["sri"] = if rng.chance(1, 2) || algo == "xxh3" { json!({"val":vi,"algo":algo}) } else { json!({"multi":[{"val":vi,"algo":algo},{"val":vi,"algo":"xxh3"}]}) };
                 }
+            }
+            if rng.chance(1, 12) {
+                // set first to other values, then to these (the builder's last call counts)
+                let mut first = json!({});
+                if o.get("size").is_some() {
+                    first["size"] = json!(len + 1000);
+                }
+                if o.get("time").is_some() {
+                    first["time"] = json!("5");
+                }
+                if o.get("meta").is_some() {
+                    first["meta"] = json!({"first": 1});
+                }
+                if o.get("raw").is_some() {
+                    first["raw"] = json!("ff");
+                }
+                o["first"] = first;
             }
             st["opts"] = o;
         }
@@ -675,7 +692,7 @@ pub fn gen_c10(rng: &mut Rng) -> Value {
         w_write: 8,
         w_write_hash: 0,
         w_remove: 4,
-        w_remove_hash: 0,
+        w_remove_hash: 1,
         w_remove_fully: 1,
         w_clear: 0,
         w_lookup: 0,
@@ -683,7 +700,7 @@ pub fn gen_c10(rng: &mut Rng) -> Value {
         w_list: 2,
         audit_every: if many { 50 } else { 3 },
         audit_what: &["metadata", "list"],
-        wcfg: WriteCfg { by_hash_pct: 0, rich_opts: true, declare_size_pct: 10, algos: false, ends: false },
+        wcfg: WriteCfg { by_hash_pct: 0, rich_opts: true, declare_size_pct: 10, algos: rng.chance(1, 3), ends: false },
     };
     let mut sc = gen_history(rng, &m);
     if !many && rng.chance(1, 8) {
